@@ -42,13 +42,13 @@ pub(crate) fn range_with_prefix<'a>(
         None => namespace.to_vec(),
     };
     let end = match end {
-        Some(e) => concat(namespace, e),
+        Some(e) => Some(concat(namespace, e)),
         // end is updating last byte by one
-        None => namespace_upper_bound(namespace),
+        None => namespace_end(namespace),
     };
 
     // get iterator from storage
-    let base_iterator = storage.range(Some(&start), Some(&end), order);
+    let base_iterator = storage.range(Some(&start), end.as_deref(), order);
 
     // make a copy for the closure to handle lifetimes safely
     let prefix = namespace.to_vec();
@@ -59,6 +59,22 @@ pub(crate) fn range_with_prefix<'a>(
 #[inline]
 fn trim(namespace: &[u8], key: &[u8]) -> Vec<u8> {
     key[namespace.len()..].to_vec()
+}
+
+/// Returns the smallest key that is greater than every key starting with the namespace,
+/// or `None` when there is no such key (the namespace is empty or consists of 255 only).
+///
+/// [namespace_upper_bound] keeps the length of the namespace, so the bytes zeroed out
+/// in place of trailing 255 have to be cut off: they would let shorter foreign keys
+/// (like `fp` for the namespace `fo\xff`) into the range.
+fn namespace_end(namespace: &[u8]) -> Option<Vec<u8>> {
+    let trailing = namespace.iter().rev().take_while(|b| **b == 255).count();
+    if trailing == namespace.len() {
+        return None;
+    }
+    let mut end = namespace_upper_bound(namespace);
+    end.truncate(namespace.len() - trailing);
+    Some(end)
 }
 
 /// Returns a new vec of same length and last byte incremented by one
